@@ -51,3 +51,8 @@ add("C07", "exploration",
     "Go race detector + client-boundary history recording checked offline by porcupine (linearizability against a sequential (last, rollovers) model) and by an O(n log n) unique-value real-time-order checker; exhaustive sequential pass over all 65 536 start values",
     "All 65 536 start values sequentially; 10k (quick) / 200k (thorough) short concurrent histories with the wrap inside and 3 / 100 long histories, all on the race-instrumented build with injected yields (client side and at an in-method hook).",
     "Only schedules the Go scheduler produced were observed; a race-free non-atomic change is found probabilistically (the evidence counts overlapping operations and distinct issue orders).")
+
+add("C06", "exploration",
+    "runtime monitor: shadow model of the packet train fed by a recording payloader wrapper; injected-clock reference for abs-send-time (hook) or bracketing; Marshal/Unmarshal oracle; race detector + gap-free check on a shared sequencer",
+    "Held on 40k (quick) / 3M (thorough) operation sequences over ten payloaders, boundary MTUs, wrap-adjacent sequencers and adversarial clock instants; 300 / 20k shared-sequencer runs on the race build.",
+    "Fragments are what the wrapped payloader returned; padding packets' timestamp and size-vs-MTU are not judged (the property does not fix them).")
